@@ -92,3 +92,120 @@ theorem parse_drains (tokens r : Nat) : terminated (parseFixed tokens r) = true 
 example : terminated (parseFixed 8 5) = true := parse_drains 8 5
 
 end P2.C12
+
+/-! ## C12.3 `parallel_cleanup`: a parallel stage leaves no worker, closer or collector behind -/
+namespace P2.C12
+open P2.Proc
+
+theorem step_measure {fixed : Bool} {s s' : Par} (h : Step fixed s s') : s'.measure < s.measure := by
+  cases h with
+  | dispatch h1 h2 h3 h4 => simp only [Par.measure]; omega
+  | mainEnd h1 h2 => simp [Par.measure, h1]
+  | deliver h1 h2 => simp only [Par.measure]; omega
+  | deliverStop h1 h2 h3 =>
+    simp only [Par.measure, h2, if_true]
+    cases fixed <;> simp <;> omega
+  | workerExit h1 h2 => simp only [Par.measure]; omega
+  | collectorEnd h1 h2 h3 h4 => simp [Par.measure, h1]
+
+/-- invariant of the repaired stage: the collector stays alive until every worker has exited, and no
+worker exits before `source` is closed -/
+def StageInv (workers : Nat) (s : Par) : Prop :=
+  (s.collector = true ∨ (s.mainDone = true ∧ s.idle = 0 ∧ s.holding = 0)) ∧
+  (s.mainDone = false → s.idle + s.holding = workers)
+
+theorem reach_inv {workers : Nat} {s0 s : Par} (h0 : StageInv workers s0) (h : Reach true s0 s) :
+    StageInv workers s := by
+  induction h with
+  | refl => exact h0
+  | step _ hs ih =>
+    obtain ⟨ih1, ih2⟩ := ih
+    cases hs with
+    | dispatch h1 h2 h3 h4 =>
+      refine ⟨?_, fun _ => ?_⟩
+      · rcases ih1 with h | ⟨h, _, _⟩
+        · exact Or.inl h
+        · simp [h] at h1
+      · have := ih2 h1; simp only; omega
+    | mainEnd h1 h2 =>
+      refine ⟨?_, fun h => by simp at h⟩
+      rcases ih1 with h | ⟨h, _, _⟩
+      · exact Or.inl h
+      · simp [h] at h1
+    | deliver h1 h2 =>
+      refine ⟨Or.inl h2, fun hm => ?_⟩
+      have := ih2 hm; simp only; omega
+    | deliverStop h1 h2 h3 =>
+      refine ⟨Or.inl rfl, fun hm => ?_⟩
+      have := ih2 hm; simp only; omega
+    | workerExit h1 h2 =>
+      refine ⟨?_, fun hm => by simp [h1] at hm⟩
+      rcases ih1 with h | ⟨_, h, _⟩
+      · exact Or.inl h
+      · omega
+    | collectorEnd h1 h2 h3 h4 =>
+      exact ⟨Or.inr ⟨h2, h3, h4⟩, fun hm => by simp [h2] at hm⟩
+
+theorem init_inv (items workers : Nat) : StageInv workers (Par.init items workers) :=
+  ⟨Or.inl rfl, fun _ => by simp [Par.init]⟩
+
+/-- C12.3 (progress): in the repaired stage every reachable state that is not final has a successor —
+no process is ever stuck, whatever the interleaving, however many items and workers (at least one),
+and whenever the consumer stops. -/
+theorem parallel_progress (items workers : Nat) (hw : 0 < workers) (s : Par)
+    (h : Reach true (Par.init items workers) s) : s.final ∨ ∃ s', Step true s s' := by
+  obtain ⟨hinv, hcount⟩ := reach_inv (init_inv items workers) h
+  by_cases hh : 0 < s.holding
+  · rcases hinv with hc | ⟨_, _, h0⟩
+    · exact Or.inr ⟨_, Step.deliver s hh hc⟩
+    · omega
+  · have hh0 : s.holding = 0 := by omega
+    cases hm : s.mainDone with
+    | false =>
+      by_cases hstop : s.src = 0 ∨ s.stopped = true
+      · exact Or.inr ⟨_, Step.mainEnd s hm hstop⟩
+      · have h1 : 0 < s.src := by
+          by_cases hz : s.src = 0
+          · exact absurd (Or.inl hz) hstop
+          · omega
+        have h2 : s.stopped = false := by
+          cases hs : s.stopped with
+          | false => rfl
+          | true => exact absurd (Or.inr hs) hstop
+        have hi : 0 < s.idle := by have := hcount hm; omega
+        exact Or.inr ⟨_, Step.dispatch s hm h2 h1 hi⟩
+    | true =>
+      by_cases hi : 0 < s.idle
+      · exact Or.inr ⟨_, Step.workerExit s hm hi⟩
+      · have hi0 : s.idle = 0 := by omega
+        cases hc : s.collector with
+        | true => exact Or.inr ⟨_, Step.collectorEnd s hc hm hi0 hh0⟩
+        | false => exact Or.inl ⟨hm, hi0, hh0, hc⟩
+
+/-- C12.3 (termination): every run of the stage is finite — with `step_measure` no run has more than
+`measure init` steps; together with `parallel_progress` every run of the repaired stage ends in the
+state in which main loop, all workers, closer and collector have terminated. -/
+theorem parallel_cleanup (items workers : Nat) (hw : 0 < workers) (s : Par)
+    (h : Reach true (Par.init items workers) s) (hstuck : ¬ ∃ s', Step true s s') : s.final := by
+  rcases parallel_progress items workers hw s h with hf | hs
+  · exact hf
+  · exact absurd hs hstuck
+
+/-- the pinned behaviour (the collector returns when the consumer stops): a reachable state in which a
+worker holds a result that nobody will ever receive — stuck and not final (the leak of B12) -/
+def pinnedStuck : Par := { src := 3, idle := 0, holding := 1, mainDone := true, collector := false, stopped := true }
+
+theorem pinned_stuck_reachable : Reach false (Par.init 5 2) pinnedStuck := by
+  have s1 := Reach.step (Reach.refl (fixed := false) (s0 := Par.init 5 2))
+    (Step.dispatch (Par.init 5 2) rfl rfl (by decide) (by decide))
+  have s2 := Reach.step s1 (Step.dispatch _ rfl rfl (by decide) (by decide))
+  have s3 := Reach.step s2 (Step.deliverStop _ (by decide) rfl rfl)
+  have s4 := Reach.step s3 (Step.mainEnd _ rfl (Or.inr rfl))
+  have s5 := Reach.step s4 (Step.workerExit _ rfl (by decide))
+  exact s5
+
+theorem pinned_stuck_is_stuck : ¬ pinnedStuck.final ∧ ¬ ∃ s', Step false pinnedStuck s' := by
+  refine ⟨fun h => by simp [Par.final, pinnedStuck] at h, fun ⟨s', hs⟩ => ?_⟩
+  cases hs <;> simp_all [pinnedStuck]
+
+end P2.C12
